@@ -255,7 +255,29 @@ def litOk (S : VSchema) : Nat → TypeRef → DValue → Bool
         else if n = "ID" then (match v with | .str _ => true | .int _ => true | _ => false)
         else true
 
-/-- input coercion of a variable VALUE (§3: enums arrive as strings or enum tokens) -/
+mutual
+/-- the default value of a variable definition is a constant LITERAL of the document: read the
+    parsed constant back as the literal it was written as, so that §5.6.1 judges it like any other
+    literal (in particular: an enum needs an enum token, a string is not one) -/
+def litOf : GValue → DValue
+  | .null => .null
+  | .int i => .int i
+  | .float t => .float t
+  | .str s => .str s
+  | .bool b => .bool b
+  | .enum e => .enum e
+  | .list xs => .list (litOfL xs)
+  | .obj fs => .obj (litOfF fs)
+def litOfL : List GValue → List DValue
+  | [] => []
+  | x :: xs => litOf x :: litOfL xs
+def litOfF : List (String × GValue) → List (String × DValue)
+  | [] => []
+  | (k, x) :: xs => (k, litOf x) :: litOfF xs
+end
+
+/-- input coercion of a variable VALUE supplied with the request (§3: there enums arrive as strings
+    or enum tokens).  NOT used for literals of the document — default values included. -/
 def coerceOk (S : VSchema) : Nat → TypeRef → GValue → Bool
   | 0, _, _ => true
   | fuel + 1, ty, v =>
@@ -317,7 +339,7 @@ def violates_ValuesOfCorrectType (S : VSchema) (d : Doc) : Bool :=
         | none => false)
     | none => false)
   || d.ops.any (fun o => o.vars.any (fun v => match v.default with
-        | some dv => (tyDef S v.ty.base).isSome && !(coerceOk S valueFuel v.ty dv) | none => false))
+        | some dv => (tyDef S v.ty.base).isSome && !(litOk S valueFuel v.ty (litOf dv)) | none => false))
 
 -- ------------------------------------------------------------------ §5.5 fragments
 
